@@ -191,6 +191,10 @@ for _src, _line in [
     ("x = [\n    1," + _IGN + "\n    2,\n]\nx = 3\nprint(x)\n", "    1," + _IGN),
 ]:
     HAND_CASES.append((_src, _line, _src.split("\n").index(_line) + 1))
+# a character that str.splitlines takes for a line break - and the parser does not - AFTER the comment, followed by trailing blanks
+for _sep in ("\x1c", "\x1d", "\x1e", "\x85", "\u2028", "\u2029", "\x0b", "\x0c"):
+    _line = "x = 1  # pyrefact: ignore " + _sep + " note  "
+    HAND_CASES.append(("import os\n" + _line + "\ny = not not x\nprint(y)\n", _line, 2))
 
 
 def run(tier, seed):
